@@ -88,7 +88,7 @@ func genStep(p *Profile, cfg *Config) *rapid.Generator[[]Op] {
 		done := func() Op {
 			op := Op{K: "done", Idx: rapid.IntRange(-1, 6).Draw(t, "call"), Out: rapid.SampledFrom([]int{0, 0, 0, 1, 2, 2, 3, 4, 5}).Draw(t, "out")}
 			if rapid.IntRange(0, 3).Draw(t, "anycode") == 0 {
-				op.Out = rapid.IntRange(6, 24).Draw(t, "outcode") // any status code, plain errors
+				op.Out = rapid.SampledFrom([]int{6, 7, 8, 9, 10, 11, 12, 13, 14, 15, 16, 17, 18, 19, 20, 21, 22, 23, 24, 26, 26}).Draw(t, "outcode") // any status code, plain errors, an error with status OK
 			}
 			if (p.Name == "affinity" || p.Name == "fallback") && rapid.IntRange(0, 14).Draw(t, "discarded") == 0 {
 				op.Out = 25 // gRPC discarded the pick: Done(DoneInfo{}) without any RPC
@@ -400,9 +400,11 @@ func genStep(p *Profile, cfg *Config) *rapid.Generator[[]Op] {
 			// bind a key, take its home channel down, use the key repeatedly (stand-in), optionally disturb, use again
 			key := rapid.IntRange(0, 3).Draw(t, "fk")
 			ops := []Op{{K: "pick", M: 1, Key: key}, {K: "done", Idx: -1, Out: 0},
-				{K: "state", Sel: 5, Key: key, St: rapid.SampledFrom([]int{3, 1, 0}).Draw(t, "fst")},
+				{K: "state", Sel: 5, Key: key, St: rapid.SampledFrom([]int{3, 1, 0, 4}).Draw(t, "fst")},
 				{K: "pick", M: 2, Key: key}, {K: "pick", M: 2, Key: key}}
-			switch rapid.IntRange(0, 5).Draw(t, "disturb") {
+			switch rapid.IntRange(0, 6).Draw(t, "disturb") {
+			case 6: // a BIND whose reply carries the key again lands somewhere (load decides) and completes: nothing moves
+				ops = append(ops, Op{K: "pick", M: 0}, Op{K: "pick", M: 1, Key: key}, Op{K: "done", Idx: -1, Out: 0})
 			case 0: // the stand-in fails
 				ops = append(ops, Op{K: "state", Sel: 6, Key: key, St: rapid.SampledFrom([]int{3, 1, 0}).Draw(t, "fst2")})
 			case 1: // the home channel recovers
@@ -688,8 +690,8 @@ func GenCase(t *rapid.T, p *Profile) *Case {
 	return c
 }
 
-var allMethods = []int{0, 0, 1, 1, 2, 2, 2, 3, 4, 5, 5, 6, 9, 10, 11, 12, 13, 19, 20, 25, 26, 27, 28, 28}
-var hostileMethods = []int{0, 1, 2, 3, 4, 5, 6, 7, 8, 9, 14, 15, 16, 17, 18, 19, 20, 21, 22, 23, 24, 25, 26, 27, 28}
+var allMethods = []int{0, 0, 1, 1, 2, 2, 2, 3, 4, 5, 5, 6, 9, 10, 11, 12, 13, 19, 20, 25, 26, 27, 28, 28, 29}
+var hostileMethods = []int{0, 1, 2, 3, 4, 5, 6, 7, 8, 9, 14, 15, 16, 17, 18, 19, 20, 21, 22, 23, 24, 25, 26, 27, 28, 29, 30}
 
 // Profiles by name.
 var Profiles = map[string]*Profile{
